@@ -147,6 +147,10 @@ def closed_country(b, rng, m, code, T, opts):
             kw['output'] = good_kw
         h['bus'] = b.sector('FixedMarginBusiness', c, BUS, **kw)
     tr = round(rng.uniform(0.05, 0.4), rng.choice([1, 2, 4])) if on_grid else rng.uniform(0.05, 0.4)
+    if opts.get('own_taxrate'):
+        # a taxable sector may carry its own TaxRate variable, which overrides the TaxFlow's rate for it only
+        who = h['hh'] if ('cap' not in h or rng.random() < 0.5) else h['cap']
+        b.add({'op': 'AddVariable', 'sector': who, 'name': 'TaxRate', 'eqn': repr(round(rng.uniform(0.05, 0.45), 2))})
     kw = {'taxrate': tr}
     if govcode != 'GOV':
         kw['paid_to'] = govcode
@@ -244,7 +248,8 @@ def gen_program(seed, family=None, tight=True, T=None, on_grid=True, with_main=T
     if family in ('closed', 'closed_fin', 'capitalists', 'pc'):
         opts = {'fin': family == 'closed_fin', 'capitalists': family == 'capitalists' or (family == 'closed' and rng.random() < 0.2),
                 'treasury_cb': family == 'pc', 'multi_output': family in ('closed',) and rng.random() < 0.3,
-                'on_grid': on_grid, 'names': names, 'hh_variant': hh_variant}
+                'on_grid': on_grid, 'names': names, 'hh_variant': hh_variant,
+                'own_taxrate': S['swarm'].random() < 0.35}
         if opts['capitalists']:
             opts['multi_output'] = False
         code = rng.choice(['CA', 'US', 'C1', 'X'])
@@ -297,6 +302,8 @@ def gen_program(seed, family=None, tight=True, T=None, on_grid=True, with_main=T
                 frac = round(prm.uniform(0.3, 0.7), 2)
                 b.add({'op': 'AddVariable', 'sector': e['hh'], 'name': 'DEM_DEP', 'eqn': '%s * F' % repr(frac)})
                 b.add({'op': 'AddVariable', 'sector': e['hh'], 'name': 'DEM_MON', 'eqn': '%s * F' % repr(round(1 - frac, 2))})
+            if S['swarm'].random() < 0.3:
+                b.add({'op': 'AddVariable', 'sector': e['hh'], 'name': 'TaxRate', 'eqn': repr(round(prm.uniform(0.05, 0.45), 2))})
             info['economies'].append(e)
             # government demand for this region's goods: DEM_<FullCode of the market>
             vn = 'DEM_%s_GOOD' % rc
@@ -325,7 +332,9 @@ def gen_program(seed, family=None, tight=True, T=None, on_grid=True, with_main=T
             ext = b.add({'op': 'ExternalSector', 'id': b.h('c'), 'model': m})
         for i, code in enumerate(codes):
             opts = {'fin': False, 'on_grid': on_grid, 'multi_output': family == 'multi_currency_supply',
-                    'gold': family == 'gold' and i == 0, 'names': names, 'hh_variant': hh_variant}
+                    'gold': family == 'gold' and i == 0, 'names': names, 'hh_variant': hh_variant,
+                    'capitalists': family == 'multi_currency' and S['swarm'].random() < 0.35,
+                    'own_taxrate': S['swarm'].random() < 0.25}
             code = cmap.get(code, code)
             codes[i] = code
             e = closed_country(b, prm, m, code, T, opts)
@@ -359,6 +368,11 @@ def gen_program(seed, family=None, tight=True, T=None, on_grid=True, with_main=T
             set_exo(b, prm, src, vn, amt)
             b.add({'op': 'RegisterCashFlow', 'model': m, 'source': src, 'target': tgt, 'var': vn,
                    'inc_src': rng.random() < 0.5, 'inc_dst': rng.random() < 0.5})
+            if rng.random() < 0.35:
+                # the same amount variable paid out a second time, to another receiver (any zone)
+                others = [e2[kk] for e2 in info['economies'] for kk in ('hh', 'gov', 'bus') if e2[kk] not in (src, tgt)]
+                b.add({'op': 'RegisterCashFlow', 'model': m, 'source': src, 'target': rng.choice(others), 'var': vn,
+                       'inc_src': rng.random() < 0.7, 'inc_dst': rng.random() < 0.5})
         if family == 'multi_currency_supply':
             for i, e in enumerate(info['economies']):
                 other = info['economies'][(i + 1) % n]
